@@ -77,7 +77,10 @@ def run(ctx, rep):
     c.extra_precondition = extra
     c.extra_panic = extra_panic
     c.run()
-    rep.floor("assert", "panic-relevant sites in elf_stream (asserts + partial calls)", c.counts["assert"] + c.counts["partial-call"], 4)
+    # (the number of trapping operations goes down when plain arithmetic / indexing is replaced by checked forms: the floor guards
+    # against the census seeing nothing at all, not against that)
+    rep.floor("assert", "census sites in elf_stream (calls + asserts)", sum(v for v in c.counts.values() if isinstance(v, int)), 150)
+    rep.floor("assert", "panic-relevant sites in elf_stream (asserts + partial calls)", c.counts["assert"] + c.counts["partial-call"], 1)
     rep.info["site_counts"] = c.counts
 
     # ------------------------------------------------------------------ (b) allocation sites
@@ -119,7 +122,7 @@ def run(ctx, rep):
                         why = v
                 rep.require(why is not None, "alloc-bound", key, cs.where(), why or "",
                             "unclassified alloc/std callee %s in %s (may allocate an unbounded amount)" % (name, fn["qual"]))
-    rep.floor("alloc-bound", "sized allocation sites (from_elem, collect)", n_alloc, 3)
+    rep.floor("alloc-bound", "sized allocation sites (from_elem, collect)", n_alloc, 2)   # 3 on the pinned tree; one shared table reader leaves 2
 
     # ------------------------------------------------------------------ (c) laziness
     rule_io_protocol(F, rep, "lazy-io")
@@ -353,6 +356,9 @@ def const_values(an, t, depth=0):
         return None if a is None or b is None else {x + y for x in a for y in b}
     if t.op == "bin" and t.args[0] == "Add":
         a, b = const_values(an, t.args[1], depth + 1), const_values(an, t.args[2], depth + 1)
+        return None if a is None or b is None else {x + y for x in a for y in b}
+    if t.op == "payload" and t.args[1] == "Some" and t.args[0].op == "call" and t.args[0].args[0].endswith("::checked_add") and len(t.args[0].args[2]) == 2:
+        a, b = const_values(an, t.args[0].args[2][0], depth + 1), const_values(an, t.args[0].args[2][1], depth + 1)
         return None if a is None or b is None else {x + y for x in a for y in b}
     if t.op in ("mterm", "ite"):
         arms = [a for _, a in t.args[1]] if t.op == "mterm" else [t.args[1], t.args[2]]
